@@ -164,7 +164,7 @@ PROPS["C05"] = {
         "select, occs, occs_smaller over the full argument alphabets is compared with a Vec<u8> reference. Non-trivial = "
         "non-empty; distinct by content hash.",
         TRUST,
-        "quick: TINYQ(7), lengths <= 24577 (all positions up to 2049, boundary positions above); thorough: TINYQ(9), lengths up "
+        "quick: TINYQ(10), lengths <= 24577 (all positions up to 2049, boundary positions above); thorough: TINYQ(11), lengths up "
         "to 2^20+1, all positions up to 8193, both build profiles."),
     "vacuity": need(["cases_crossing_two_select_samples", "cases_with_2+_superblocks_512", "cases_with_absent_symbol", "empty_cases"]),
 }
@@ -179,7 +179,7 @@ PROPS["C06"] = {
         "single one/zero) x RSNarrow/RSWide x {new, From}; every get, rank1, rank0, select1, select0, n_ones, n_zeros (bv_len) is "
         "compared with a Vec<bool> reference. Non-trivial = non-empty; distinct by content hash.",
         TRUST,
-        "quick: TINYBIT(12), lengths <= 65537; thorough: TINYBIT(16), lengths up to 2^21+1, both build profiles."),
+        "quick: TINYBIT(18), lengths <= 65537; thorough: TINYBIT(22), lengths up to 2^21+1, both build profiles. The bit vector under the structure is obtained by every route the API offers (bools, sorted positions, repeated unsorted positions, a BitVectorMut history)."),
     "vacuity": need(["cases_over_8192_ones", "cases_over_8192_zeros", "cases_over_32768_bits", "all_zero_cases", "all_one_cases", "empty_cases"]),
 }
 
@@ -194,7 +194,7 @@ PROPS["C07"] = {
         "from a BitVector, from bools and from positions; every select1/select0 (all k in 0..=count+1, usize::MAX), len, counts, "
         "get, iter/ones/zeros and *_with_pos from group boundaries is compared with a Vec<bool> reference.",
         TRUST,
-        "quick: g <= 4 over {dense, threshold, sparse} (+ g <= 2 over 5 kinds), TINYBIT(11); thorough: g <= 5 (+ g <= 3), TINYBIT(13), both profiles."),
+        "quick: g <= 4 over {dense, threshold, sparse} (+ g <= 2 over 5 kinds), TINYBIT(15); thorough: g <= 6 (+ g <= 3), TINYBIT(18), both profiles."),
     "vacuity": need(["cases_with_sparse_then_dense_group_of_ones", "cases_with_sparse_then_dense_group_of_zeros",
                      "cases_with_threshold_group_of_ones", "cases_with_dense_then_sparse_group_of_ones", "empty_cases"]),
 }
@@ -232,7 +232,7 @@ PROPS["C12"] = {
         "len() where implemented, over all short inputs and lengths around 64/512 resp. 128/256. states = iterator "
         "configurations visited, transitions = calls executed.",
         TRUST,
-        "sequences up to length 4 for the double-ended histories (all interleavings), TINYBIT(5)/TINYQ(4) + boundary lengths "
+        "sequences up to length 6 (thorough 7) for the double-ended histories (all interleavings, also on Default::default() trees), TINYBIT(7)/TINYQ(4) + boundary lengths; next/nth/size_hint histories on inputs of 130..1025 elements "
         "for the forward iterators."),
     "vacuity": lambda results: None if _merge_counters(results)[0].get("histories", 0) > 1000 else "fewer than 1000 histories",
 }
@@ -249,7 +249,7 @@ PROPS["C13"] = {
         "i <= n+1, the three iterators, equality with from_iter of the same values, inequality with a one-symbol neighbour). "
         "Plus the E1 family: collect of every integer type over all of TINYQ(L) with values offset by multiples of 4 and negated.",
         TRUST + ["stateright 0.31"],
-        "quick: depth 4 from empty, 3 from the other starts, TINYQ(5); thorough: depth 5 / 4, TINYQ(7), both profiles."),
+        "quick: depth 5 from empty, 4 from the other starts, TINYQ(6); thorough: depth 6 / 5, TINYQ(7), both profiles."),
     "vacuity": lambda results: None if _merge_counters(results)[0].get("states", 0) > 1000 else "fewer than 1000 states",
 }
 
@@ -421,7 +421,7 @@ PROPS["C14"] = {
         "r = 1/8 (block 256) or 1/16 (512), +0.01 with prefetch support; B=1, L=bitlen(m), r=0.05 for WT and RSWide. The 2^k+1 "
         "lengths sit just after a capacity doubling. Non-trivial = n > 1000.",
         TRUST + ["the counting #[global_allocator] (requested sizes, not allocator slop)"],
-        "quick: n <= 131073; thorough: n <= 2^20+1 and both profiles. The per-level constant (2048 bytes) and the 1% head-room are "
+        "quick: n <= 262145; thorough: n <= 2^22+1 and both profiles. The per-level constant (2048 bytes) and the 1% head-room are "
         "calibrated on the current tree (largest case uses 97.7% of its bound)."),
     "vacuity": need(["large_cases"]),
 }
@@ -477,7 +477,7 @@ PROPS["C17"] = {
         "length <= 5 over {0,1,7,200,255}. Reference: naive bit scans and sort_by_key. Every case is non-trivial.",
         TRUST,
         "select_in_word is NOT checked on all 2^64 words: the claim is exhaustive coverage of the lookup table, of every byte-sum "
-        "carry pattern over the byte alphabet, and of all low/high-popcount words; thorough adds popcount 4 / 60, a 7-value byte "
+        "carry pattern over the byte alphabet, and of all low/high-popcount words (quick: popcount <= 5 / >= 59; thorough: <= 6 / >= 58, 83 M words) plus a 7-value byte "
         "alphabet (5.7 M words), sequences of length 6 and strings of length 7."),
     "vacuity": need(["words", "words128"]),
 }
